@@ -141,6 +141,11 @@ fn cite_program(rng: &mut Rng) -> CiteCase {
     CiteCase { program: Program { data: vec![], items }, ending }
 }
 
+/// Windows line ends: every LF becomes CR LF (line numbers and line texts stay what they are)
+fn crlf(text: &str) -> String {
+    text.replace('\n', "\r\n")
+}
+
 fn rand_layout(rng: &mut Rng) -> Layout {
     Layout { trailing_newline: rng.chance(1, 2), filler_pct: *rng.pick(&[0u32, 20, 50]), pack_pct: *rng.pick(&[0u32, 0, 20, 40]), comments: rng.chance(1, 2) }
 }
@@ -148,7 +153,11 @@ fn rand_layout(rng: &mut Rng) -> Layout {
 /// (a) in process: instruction i's source-map offset lies on the generator-known line
 fn check_map(rep: &Report, p: &Program, rng: &mut Rng, core: Option<String>, kind: &str) {
     let lay = rand_layout(rng);
-    let r = p.render(&mut Spell::random(rng.fork(9)), &lay);
+    let mut r = p.render(&mut Spell::random(rng.fork(9)), &lay);
+    let use_crlf = rng.chance(1, 4);
+    if use_crlf {
+        r.text = crlf(&r.text);
+    }
     let stripped = strip_comments(&r.text);
     rep.eval(1);
     let a = match assemble(&stripped) {
@@ -227,7 +236,11 @@ fn is_macro_generated(p: &Program, flat_idx: usize) -> bool {
 /// (b) the binary's run-time messages
 fn check_messages(rep: &Report, c: &CiteCase, rng: &mut Rng, core: Option<usize>) {
     let lay = rand_layout(rng);
-    let r = c.program.render(&mut Spell::random(rng.fork(5)), &lay);
+    let mut r = c.program.render(&mut Spell::random(rng.fork(5)), &lay);
+    let use_crlf = rng.chance(1, 4);
+    if use_crlf {
+        r.text = crlf(&r.text);
+    }
     let interpreted = rng.chance(1, 3);
     let stdin = b"n\n".repeat(400);
     let out = run_cli(r.text.as_bytes(), &CliOpts { interpreted, stdin: &stdin, env: vec![("VERIF_NOMEM", "1")], ..Default::default() });
@@ -295,11 +308,23 @@ fn check_messages(rep: &Report, c: &CiteCase, rng: &mut Rng, core: Option<usize>
                 _ => {}
             }
         }
-        for (kind, marker) in expect {
+        // regions of the segment, independent of the wording: pieces that end in a prompt are announcements
+        // (step announcement first, then the breakpoint message), what follows the last prompt is the
+        // instruction's own output, whose first line is the header of a print / the error message
+        let pieces: Vec<&str> = seg.split(">>> ").collect();
+        let tail = pieces[pieces.len() - 1];
+        for (kind, _marker) in expect {
             rep.count("messages checked", 1);
             rep.distinct_str(&format!("{}|{}|{}|last{}|c{}|p{}", kind, origin, lk(lay.trailing_newline), last_line, lay.comments, lay.pack_pct > 0));
-            let msg_line = seg.lines().find(|l| l.contains(marker));
-            match msg_line {
+            let region: Option<String> = match kind {
+                "about-to-execute" => if pieces.len() >= 2 { Some(pieces[0].to_string()) } else { None },
+                "int3" => {
+                    let k = if interpreted { 1 } else { 0 };
+                    if pieces.len() >= k + 2 { Some(pieces[k].to_string()) } else { None }
+                }
+                _ => tail.lines().find(|l| !l.trim().is_empty()).map(|l| l.to_string()),
+            };
+            match region.as_deref().map(|m| m.trim()).filter(|m| !m.is_empty()) {
                 None => fail(format!("msg:{}:{}:missing", kind, origin), format!("C16: no `{}` message for an instruction that requires one", kind), format!("idx {} ir {:?} segment {:?}", rec.idx, rec.line, &seg[..seg.len().min(200)])),
                 Some(m) => {
                     // the line number must appear as an integer token before the quoted line text
@@ -382,6 +407,10 @@ fn check_diag(rep: &Report, rng: &mut Rng, core: Option<usize>, cli: bool) {
     let p = rand_program_any(rng, np);
     let lay = Layout { trailing_newline: rng.chance(1, 2), filler_pct: *rng.pick(&[0u32, 30]), pack_pct: 0, comments: rng.chance(1, 3) };
     let r = p.render(&mut Spell::random(rng.fork(2)), &lay);
+    let mut r = r;
+    if rng.chance(1, 4) {
+        r.text = crlf(&r.text);
+    }
     let toks = tokenize(&r.text);
     if toks.is_empty() {
         return;
@@ -597,4 +626,4 @@ pub fn run(rep: &Report) {
     rep.floor("diagnostics checked on the binary", rep.counter("diagnostics checked on the binary") + rep.counter("semantic diagnostics checked on the binary"), 400);
 }
 
-pub const RULE: &str = "(a) programs rendered with known positions (random case/radix/whitespace, blank lines, comment lines and trailing comments, several instructions per line, with/without final newline): for every emitted instruction the source-map offset must lie on the generator-known line (the macro use line for macro-generated instructions incl. nested macros, the closing brace for an implied ret); (b) the same kind of program run through the binary (plain and -i): every 'Output of line', 'Int 3 at line', 'About to execute line', divide-error (direct, in a macro, in a procedure) and unsupported-AH message, located between hook records, must contain the line number of the instruction whose record precedes it as an integer token before the quoted text, and the comment-stripped trimmed text of that line; (c) single-token corruptions (unexpected token / invalid character incl. non-ASCII) at first, last and random token positions of random programs, and 13 kinds of semantic defects at known lines (middle, last line with and without newline): the diagnostic's position (in process) must be on the token's line, and the binary's diagnostic must contain line number, column (0- or 1-based) and line text. Wording is never compared. Distinct = (message/diagnostic kind, origin, layout class, position class).";
+pub const RULE: &str = "(a) programs rendered with known positions (random case/radix/whitespace, blank lines, comment lines and trailing comments, several instructions per line, with/without final newline, LF or CR LF line ends): for every emitted instruction the source-map offset must lie on the generator-known line (the macro use line for macro-generated instructions incl. nested macros, the closing brace for an implied ret); (b) the same kind of program run through the binary (plain and -i): every 'Output of line', 'Int 3 at line', 'About to execute line', divide-error (direct, in a macro, in a procedure) and unsupported-AH message, located between hook records, located by position relative to hook records and prompt markers (never by wording), must contain the line number of the instruction whose record precedes it as an integer token before the quoted text, and the comment-stripped trimmed text of that line; (c) single-token corruptions (unexpected token / invalid character incl. non-ASCII) at first, last and random token positions of random programs, and 13 kinds of semantic defects at known lines (middle, last line with and without newline): the diagnostic's position (in process) must be on the token's line, and the binary's diagnostic must contain line number, column (0- or 1-based) and line text. Wording is never compared. Distinct = (message/diagnostic kind, origin, layout class, position class).";
